@@ -1010,31 +1010,15 @@ func verifScenarios() []verifScenario {
 			verifc02.BuildOpts{ChunkSize: 16, MinChunkSize: 100000}},
 		{"plain-writer", []verifc02.Ent{verifReg("p", 30, 5), {Name: "d/e/f", Type: tar.TypeFifo, Mode: 0o600}},
 			verifc02.BuildOpts{ChunkSize: 9, Plain: true}},
+		// regression (repaired by 8686934): an empty regular file among the files that share the
+		// stream at blob offset 0 — after a non-empty file, and as the first entry
+		{"empty-file-in-first-stream", []verifc02.Ent{verifReg("a", 10, 1), verifReg("e", 0, 2), verifReg("b", 12, 3)},
+			verifc02.BuildOpts{ChunkSize: 4, MinChunkSize: 100000, Prioritized: []string{"a", "e", "b"}}},
+		{"empty-file-first-in-first-stream", []verifc02.Ent{verifReg("e", 0, 2), verifReg("a", 10, 1), verifReg("b", 12, 3)},
+			verifc02.BuildOpts{ChunkSize: 4, MinChunkSize: 100000, Plain: true}},
+		{"empty-file-inside-later-stream", []verifc02.Ent{verifReg("a", 10, 1), verifReg("e", 0, 2), verifReg("b", 12, 3)},
+			verifc02.BuildOpts{ChunkSize: 4, MinChunkSize: 100000}},
 	}
-}
-
-// verifTainted reports whether the layout hits the labelled candidate finding
-// verifc02.SigEmptyInFirstMember: an empty regular file among the data entries that share the member
-// at blob offset 0 (memory store only).  Its TOC entry has Offset 0 as well, so the pre-read loop of
-// estargz fileReader.ReadAt takes it for a chunk of that member: after a non-empty file the discard
-// count goes negative ("discard of remaining -N bytes"), as the first entry it is handed to the
-// pre-reader with an empty digest ("verifier not found") when verification is on.
-func verifTainted(lines []verifc02.TocLine) bool {
-	hasEmpty, hasData := false, false
-	for _, l := range lines {
-		if !l.Data {
-			continue
-		}
-		if l.Offset != 0 {
-			break
-		}
-		if l.ChunkSize == 0 {
-			hasEmpty = true
-		} else {
-			hasData = true
-		}
-	}
-	return hasEmpty && hasData
 }
 
 // TestVerifC02 — lazily served files and metadata equal the source tar under any access history.
@@ -1056,9 +1040,6 @@ func TestVerifC02(t *testing.T) {
 		verifHistory(t, out, rnd, s, nops, "scenario "+sc.name)
 		s.close()
 	}
-
-	// labelled stream: witness of the candidate finding (memory store)
-	verifWitnessEmptyInFirstMember(t, out)
 
 	for h := 0; h < nhist; h++ {
 		chunkHint := []int64{7, 33, 64, 500}[rnd.Intn(4)]
@@ -1083,39 +1064,7 @@ func TestVerifC02(t *testing.T) {
 			out.Fail("stack-setup-failed", fmt.Sprintf("history %d: %v [%s | %s]", h, err, opts, cfg))
 			continue
 		}
-		if verifTainted(s.lines) {
-			// the layout of the labelled candidate finding; exercised by its own witness only
-			out.Count("skipped-tainted-layout")
-			s.close()
-			continue
-		}
 		verifHistory(t, out, rnd, s, nops, fmt.Sprintf("history %d", h))
 		s.close()
 	}
-}
-
-// verifWitnessEmptyInFirstMember replays the minimal archive of the candidate finding and reports it
-// under its own signature, so that every other violation is still reported under its own.
-func verifWitnessEmptyInFirstMember(t *testing.T, out *verifutil.Out) {
-	ents := []verifc02.Ent{verifReg("a", 10, 1), verifReg("e", 0, 2), verifReg("b", 12, 3)}
-	opts := verifc02.BuildOpts{ChunkSize: 4, MinChunkSize: 100000, Prioritized: []string{"a", "e", "b"}}
-	cfg := verifStackCfg{regChunk: 64, fsCache: "memory", httpCache: "memory", lru: 2, fds: 2, syncAdd: true, verify: true,
-		timeout: 2 * time.Second, store: memorymetadata.NewReader, variant: "m"}
-	s, err := verifNewStack(t, ents, opts, cfg)
-	if err != nil {
-		out.Fail("witness-setup-failed", err.Error())
-		return
-	}
-	defer s.close()
-	out.Comment("witness " + verifc02.SigEmptyInFirstMember)
-	for _, p := range []string{"a", "b"} {
-		got, errno := s.tree.Read(p, 0, 4)
-		fi, _ := s.fileOf(p)
-		if errno != 0 || !bytes.Equal(got, s.files[fi].data[:4]) {
-			out.Fail(verifc02.SigEmptyInFirstMember, fmt.Sprintf("tar [a(10 bytes) e(empty) b(12 bytes)] built with chunk-size 4, min-chunk-size 100000, prioritized [a e b] "+
-				"(the first gzip member starts at blob offset 0 and holds a, e, b): reading %q[0:4] with a healthy registry gives errno=%v bytes=%q", p, errno, got))
-			return
-		}
-	}
-	out.Count("witness-empty-in-first-member-ok")
 }
